@@ -198,7 +198,14 @@ def monC06 : ObsMonitor Obs M6 where
       match m.pending.find? (·.1 == id) with
       | some (_, op, overlapped) =>
         let rest := m.pending.filter (·.1 != id)
-        if overlapped then some { m.weakRet op res with pending := rest, ctors := [] }
+        if overlapped then
+          let m' := m.weakRet op res
+          -- a reference taken while `RemoveKey` on its key is in progress may already be released
+          let m' := match op, res with
+            | .addKeyRef k, .ref r _ _ =>
+              if rest.any (fun p => p.2.1 == Op.rcRemoveKey k) then { m' with liveDef := setAt m'.liveDef r none } else m'
+            | _, _ => m'
+          some { m' with pending := rest, ctors := [] }
         else (m.ret op res).map fun m => { m with pending := rest, ctors := [] }
       | none => none
     | .cbin j k _ => if j == m.runKey.length then some { m with runKey := m.runKey ++ [k] } else none
